@@ -44,6 +44,7 @@ type History struct {
 	Threads    int  `json:"threads"`
 	Extra      int  `json:"extra"`                // additional OS threads in various states (C10)
 	NoSeccomp  bool `json:"no_seccomp,omitempty"` // fault: seccomp(2) answers ENOSYS (an outer filter denies it)
+	NoNNP      bool `json:"no_nnp,omitempty"`     // fault: prctl(PR_SET_NO_NEW_PRIVS) answers EINVAL (an outer filter denies it); privileged children only
 	Ops        []Op `json:"ops"`
 }
 
@@ -173,6 +174,19 @@ func child(h History) {
 		prog := syscall.SockFprog{Len: uint16(len(outer)), Filter: &outer[0]}
 		if _, _, e := syscall.RawSyscall(317, 1, 1, uintptr(unsafe.Pointer(&prog))); e != 0 {
 			fmt.Println(`{"fatal":"outer filter"}`)
+			return
+		}
+		runtime.UnlockOSThread()
+	}
+	if h.NoNNP {
+		// fault injection: an outer filter (installed with CAP_SYS_ADMIN, so without the bit, and on all
+		// threads) answers prctl(PR_SET_NO_NEW_PRIVS, …) with EINVAL, as a kernel before 3.5 would
+		runtime.LockOSThread()
+		outer := []syscall.SockFilter{{Code: 0x20, K: 0}, {Code: 0x15, Jt: 0, Jf: 3, K: syscall.SYS_PRCTL}, {Code: 0x20, K: 16},
+			{Code: 0x15, Jt: 0, Jf: 1, K: 38}, {Code: 0x06, K: 0x00050000 | 22}, {Code: 0x06, K: 0x7fff0000}}
+		prog := syscall.SockFprog{Len: uint16(len(outer)), Filter: &outer[0]}
+		if _, _, e := syscall.RawSyscall(317, 1, 1, uintptr(unsafe.Pointer(&prog))); e != 0 {
+			fmt.Println(`{"fatal":"outer filter (nnp)"}`)
 			return
 		}
 		runtime.UnlockOSThread()
@@ -400,6 +414,9 @@ func request(h History) string {
 	if h.NoSeccomp {
 		priv += 2
 	}
+	if h.NoNNP {
+		priv += 4
+	}
 	fmt.Fprintf(&b, "H %d %d %d", priv, h.Threads, len(h.Ops))
 	pol := func(kind string) string {
 		switch kind {
@@ -443,6 +460,9 @@ func genHistory(r *rand.Rand, profile string) History {
 	}
 	if (profile == "load" || profile == "tsync") && r.Intn(8) == 0 {
 		h.NoSeccomp = true
+	} else if (profile == "load" || profile == "nnp") && r.Intn(8) == 0 {
+		// only a privileged process can install the outer filter without setting the bit itself
+		h.NoNNP, h.Privileged = true, true
 	}
 	for i := 0; i < nops; i++ {
 		op := Op{Op: "load", Thread: r.Intn(h.Threads), NNP: r.Intn(2) == 0, Flags: flagsPool[r.Intn(4)], Policy: "valid"}
@@ -512,7 +532,7 @@ func compare(h History, obs []Obs, model string) (ok bool, note string, failing 
 			return false, where + ": result " + o.Result + ", model " + f[0], fail
 		}
 		base := 0
-		if h.NoSeccomp {
+		if h.NoSeccomp || h.NoNNP {
 			base = 1 // the outer filter
 		}
 		for t := 0; t < h.Threads; t++ {
@@ -719,6 +739,12 @@ func main() {
 			}
 		}
 		sum.Distribution[fmt.Sprintf("threads:%d+%d", h.Threads, h.Extra)]++
+		if h.NoSeccomp {
+			sum.Distribution["fault:seccomp-ENOSYS"]++
+		}
+		if h.NoNNP {
+			sum.Distribution["fault:prctl-EINVAL"]++
+		}
 		if h.Privileged {
 			sum.Distribution["privileged"]++
 		} else {
